@@ -690,6 +690,49 @@ theorem logx_live_source_eq_model (ex : K → K) (s : St K) (n : Nat) (isLogt : 
       funext k; simp [shrinkOf]
     simp only [Gen.Trapezoid.get_logx_live_points, St.logxLive, if_true, e]
 
+/-- the volumes `compute_weights` builds: `np.zeros(n + 2)`, inner slice := cumulative sums, last := `-inf` -/
+theorem one_pass_vols (cp : List K) (n : Nat) (h : cp.length = n) :
+    (setInner (List.replicate (n + 2) (1 : K)) cp).dropLast ++ [0] = [1] ++ cp ++ [0] := by
+  have h1 : (List.replicate (n + 2) (1 : K)).take 1 = [1] := by simp [List.replicate_succ]
+  have h2 : (List.replicate (n + 2) (1 : K)).drop ((List.replicate (n + 2) (1 : K)).length - 1) = [1] := by
+    simp [List.drop_replicate]
+  simp only [setInner, h1, h2]
+  rw [List.dropLast_concat]
+
+/-- **`posterior.compute_weights` of the source is the model's `computeWeights`** for a per-iteration live-count array of the right
+length and at least one sample (an empty sample array raises `IndexError` at `samples[-1]`: the model's `indexErr`), for both
+spellings of the expectation; the schedule statement is the model's `scheduleOnePass` (pinned, tied by the correspondence) -/
+theorem compute_weights_source_eq_model (ex : K → K) (samples : List K) (sched : List Nat) (isLogt : Bool)
+    (hne : samples ≠ []) (hlen : sched.length = samples.length) :
+    Gen.Trapezoid.compute_weights ex sched samples (if isLogt = true then "logt" else "t")
+      = computeWeights (shrinkOf ex isLogt) samples (.arr sched) := by
+  obtain ⟨last, hlast⟩ : ∃ l, samples.getLast? = some l := by
+    cases h : samples.getLast? with
+    | none => exact absurd (List.getLast?_eq_none_iff.mp h) hne
+    | some l => exact ⟨l, rfl⟩
+  have hgl : samples.getLastD 0 = last := by
+    rw [List.getLastD_eq_getLast?, hlast]; rfl
+  have hne' : ¬ (sched.length ≠ samples.length) := by simpa using hlen
+  have hcp : ∀ ts : List K, ts.length = sched.length → (cumprodFrom (1 : K) ts).length = samples.length := by
+    intro ts h
+    have : ∀ (w : K) (l : List K), (cumprodFrom w l).length = l.length := by
+      intro w l; induction l generalizing w with
+      | nil => rfl
+      | cons a t ih => simp [cumprodFrom, ih]
+    rw [this, h, hlen]
+  cases isLogt
+  · have h : ("t" : String) ≠ "logt" := by decide
+    have e : (fun (k : Nat) => (1 : K) / (1 + 1 / (k : K))) = shrinkOf ex false := by
+      funext k; simp [shrinkOf]
+    have hv := one_pass_vols (cumprodFrom 1 (sched.map (shrinkOf ex false))) samples.length (hcp _ (by simp))
+    simp only [Gen.Trapezoid.compute_weights, computeWeights, h, Bool.false_eq_true, if_false, if_true, e, hne', hlast, hgl,
+      hv, trapezoid_source_eq_model, postWeights, diffs_eq_zipWith, List.map_zipWith]
+  · have e : (fun (k : Nat) => ex (-1 / (k : K))) = shrinkOf ex true := by
+      funext k; simp [shrinkOf]
+    have hv := one_pass_vols (cumprodFrom 1 (sched.map (shrinkOf ex true))) samples.length (hcp _ (by simp))
+    simp only [Gen.Trapezoid.compute_weights, computeWeights, if_true, e, hne', hlast, hgl, if_false,
+      hv, trapezoid_source_eq_model, postWeights, diffs_eq_zipWith, List.map_zipWith]
+
 example : Gen.Trapezoid.get_logx_live_points (fun x => x) (1 : ℚ) "T" 3 = none := by
   simp [Gen.Trapezoid.get_logx_live_points]
 
